@@ -12,8 +12,11 @@ RULE = ("M: GridLandscape.tla -- compute_landscape as a machine (SnapAll, one Ad
 INFT = 100000000
 
 
-def gen_case(rng, quick):
+def gen_case(rng, quick, force_big=False):
     n = rng.choice([2, 3, 4, 5, 7, 9, 12, 17, 30, 60]) if not quick else rng.choice([2, 3, 4, 5, 7, 9, 12, 20])
+    big = force_big or rng.random() < (0.001 if quick else 0.004)
+    if big:      # a few grids beyond a thousand nodes (block-wise or chunked implementations of the snapping show only there)
+        n = 1100 if quick else rng.choice([1100, 1500, 2100])
     s = rng.choice([1, 2, 3, 4, 6, 8])
     even = rng.random() < 0.5
     if even and s % 2:
@@ -25,7 +28,7 @@ def gen_case(rng, quick):
     if mult4:
         a = rng.choice([0, 4, -4])
     top = (n - 1) * s
-    nb = rng.randint(1, 6 if rng.random() < 0.8 else 12)
+    nb = rng.randint(1, 6 if rng.random() < 0.8 else 12) if not big else rng.randint(1, 3)
     lo, hi = (0, top) if rng.random() < 0.6 else (min(top, s), max(min(top, s), top - s))  # grid strictly wider than the diagram
     bars = []
     tries = 0
@@ -167,7 +170,7 @@ def run(ctx):
     tlaps.attach(ctx, "TentLipschitz", "for ALL integers: endpoints moved by <= s/2 move the tent by <= s/2 at every t; max/min are 1-Lipschitz (unbounded half of HalfStep)")
     embs_all = EXACT_EMBS + DEC_EMBS[:3]
     n = 1500 if quick else 12000
-    gcs = [gen_case(ctx.rng, quick) for _ in range(n)]
+    gcs = [gen_case(ctx.rng, quick) for _ in range(n - 2)] + [gen_case(ctx.rng, quick, force_big=True) for _ in range(2)]
     embs = [embs_all[i % len(embs_all)] for i in range(n)]
     validate(ctx, gcs, embs, "V")
 
